@@ -31,28 +31,31 @@ from vgi_rpc.http._common import _RpcHttpError
 from vgi_rpc.rpc import AuthContext
 
 MANIFEST = {
-    "level_text": "Deductive proof over the real token code, for every identity pair, key, token, plaintext, clock reading and TTL: the cursor and call AADs are injective functions of the caller identity (anonymous | (domain, principal), NUL-free domains) and never coincide with each other; every seal site binds the AAD of the minting identity, the server key and the minting time; the plaintext parsers invert the packers and are total (fields or HTTP 400, never IndexError/struct.error) on arbitrary authenticated plaintext; a token is accepted only within its TTL; in _unpack_and_recover_state every cache lookup, call-token open, deserialisation and user hook (bind_call_state, rehydrate) is preceded by a successful open of the cursor token under the request's own AAD, key and TTL, cache.put only after the call ids matched; every rejection is HTTP 400; and the token is exactly base64 of the AEAD envelope. Combined with the assumed AEAD contract this gives: accepted => minted under the same key for the same identity within the TTL. Tests tamper a handful of bytes and one other principal; the proof quantifies over all of them.",
-    "level_note": "Modulo the idealised AEAD contract (an envelope opens only if it was sealed under the same normalised key and AAD; confidentiality assumed, on which the 'opaque' clause rests); base64/zstd round trips and totality, hmac.compare_digest == equality, UTF-8 encode injective, clock read at whole seconds are assumed; the version byte of the envelope is NOT authenticated by the real crypto, so kind separation rests on the AADs (proved) and not on versions; sticky-session tokens are sealed under the same key and the same cursor AAD and are separated from cursor tokens only by that version byte and payload framing (assumption, see ASSUMPTIONS); process/on_cancel ordering in _run_stream_exchange_sync is proved in C13's harness. The uniformity clause ('no detail distinguishing which check failed') is checked literally and is refuted on a tree whose 400 messages differ per check.",
-    "technique": "contract-based deductive verification: path-wise postconditions on the real functions, string lemmas (z3 seq, cvc5 --strings-exp), ghost trace of open/lookup/deserialise/hook events, idealised AEAD as handlers over ghost state",
+    "level_text": "Deductive proof over the real token code, for every identity pair, key, presented token, authenticated plaintext, clock reading and TTL: the cursor and call AADs are injective functions of the caller identity (anonymous | (domain, principal), NUL-free domains) and never coincide with each other; every mint site seals under the minting identity's AAD, the server key and the minting time; the openers return exactly the slices of the authenticated plaintext (headers = segment lengths, segments tile it), never raise anything but HTTP 400 on it, and accept only within the TTL; the packers produce created_at | call_id | (len, segment)* and unpack inverts pack, and that tiling is unique, so opening a genuine token returns the sealed fields and the minting time; the token is exactly base64 of the AEAD envelope; in _unpack_and_recover_state / _run_stream_exchange_sync every cache lookup, call-token open, deserialisation, bind_call_state, rehydrate, process, on_cancel and producer turn is preceded by a successful open of the cursor token under the server key, the request's own AAD and the configured TTL, cache.put only after the call ids matched; every rejection is HTTP 400; end to end (real /init shell then real /exchange shell, idealised AEAD) minted tokens reach user code only for the minting identity. Tests tamper a handful of bytes and replay across one other principal; the proof quantifies over all of them.",
+    "level_note": "Modulo the idealised AEAD contract (an envelope opens only under the normalised key and AAD it was sealed with; confidentiality assumed - the 'opaque' clause rests on it plus O9); base64/zstd round trips and totality, compare_digest == equality, injective UTF-8 encode and a whole-second clock are assumed. The envelope's version byte is NOT authenticated by the real crypto, so token-kind separation rests on the AADs (proved), not on versions; sticky-session tokens share key and AAD with cursor tokens and are separated only by that byte and payload framing (ASSUMPTIONS). The uniformity clause ('no detail distinguishing which check failed') is checked literally: on a tree whose 400 messages differ per check it is refuted (genuine finding, natively replayed).",
+    "technique": "contract-based deductive verification: path-wise postconditions on the real functions, string lemmas (z3 seq, cvc5 --strings-exp), tiling lemma over uninterpreted slices, ghost trace of open/lookup/deserialise/hook events, idealised AEAD as handlers over ghost state",
     "design_ref": "DESIGN.md §5 C12",
 }
 EXPLANATION = MANIFEST["level_text"]
 TRUSTED = [
     "pyvc VC generator, its string/bytes/struct encodings; z3 5.1.0 / cvc5 1.0.3",
-    "AEAD (XChaCha20-Poly1305 via _seal/_open): _open(body,key,aad,nonce) returns p iff body was produced by _seal(p,key,aad,nonce); otherwise SealError; ciphertext reveals nothing of p (assumed, not proved)",
+    "AEAD (XChaCha20-Poly1305 via crypto._seal/_open): _open(body,key,aad,nonce) returns p iff body was produced by _seal(p,key,aad,nonce); otherwise SealError; ciphertext reveals nothing of p (assumed, not proved)",
     "base64: b64decode(b64encode(x)) = x; b64decode(validate=True) returns bytes or raises binascii.Error",
     "zstandard: decompress(compress(x)) = x; decompress returns at most max_output_size bytes or raises ZstdError",
     "hmac/secrets.compare_digest(a,b) <=> a == b; hashlib.sha256(...).digest() is a 32-byte function of its input; os.urandom(n) returns n bytes",
     "str.encode() (UTF-8) is injective and preserves the presence of NUL",
+    "lemma instantiation: the tiling lemma L0b is proved over uninterpreted slice/len from instances of L0 (slice of a concatenation at a part boundary, proved for arbitrary strings) and the struct facts |le4(n)| = 4, unle4(le4(n)) = n; it is applied to str.substr/str.len by instantiation",
 ]
 ASSUMPTIONS = [
     "time.time() is read at whole-second resolution (int(time.time()) is the modelled clock value)",
     "domains are NUL-free (the property's own restriction); without it the injectivity lemma is refuted (canary)",
-    "the envelope's version byte is unauthenticated in crypto.seal_bytes (not part of the AAD): open_bytes(t) succeeds for a re-labelled version byte; C12 therefore uses only key+AAD equality from the AEAD contract",
-    "sticky-session tokens (_sticky._seal_session_token) are sealed with the same token key and the same _compute_aad(auth) as cursor tokens; a session token with its version byte rewritten passes the cursor AEAD check for the same identity and is rejected only by payload framing / call-id resolution; identity binding (L2) is unaffected, the TTL and framing clauses are proved for tokens minted by _seal_cursor_token/_seal_call_token",
+    "the envelope's version byte is unauthenticated in crypto.seal_bytes (not part of the AAD): open_bytes succeeds for a re-labelled version byte; C12 therefore uses only key + AAD equality from the AEAD contract",
+    "sticky-session tokens (_sticky._seal_session_token) are sealed with the same token key and the same _compute_aad(auth) as cursor tokens; a session token with its version byte rewritten passes the cursor AEAD check for the same identity and is rejected only by payload framing / call-id resolution; identity binding (L2) is unaffected; the TTL and framing clauses are proved for tokens minted by _seal_cursor_token/_seal_call_token",
     "_open_call_token on an authenticated plaintext whose type / stream-id segments are not UTF-8 raises UnicodeDecodeError (not 400); unreachable for tokens minted by _seal_call_token (both segments are str.encode() results)",
     "seal-time preconditions: call_id is 16 bytes, created_at in [0, 2^64), every segment < 2^32 bytes, framed plaintext <= 64 MiB (larger compressible payloads would fail to re-open: availability, not security)",
-    "user hooks (bind_call_state, rehydrate, deserialisers, schema readers) are arbitrary: return or raise any Exception",
+    "user hooks (bind_call_state, rehydrate, deserialisers, schema readers, process, on_cancel) are arbitrary: return or raise any Exception",
+    "uniformity is stated per class on a concrete representative run through the real code (failed AEAD authentication, non-base64 token, genuine token past its TTL, cross-stream pair) plus, for every symbolic rejection path, equality of its detail with its class representative",
+    "a site whose signature grows is called with the extra required parameters universally quantified, and AAD expectations pass same-named extras (e.g. method_name) to the AAD functions",
 ]
 
 NUL = z3.StringVal("\x00")
@@ -894,13 +897,13 @@ def pack_unpack(S):
 
 
 unit(
-    "C12.O4c/O5/O9 cursor token: open inverts seal, expiry, token = b64(envelope)",
+    "C12.O4c/O2/O9 cursor token, seal side: plaintext layout, key and AAD passed through, token = b64(envelope)",
     targets=["vgi_rpc/http/server/_state_token.py::_seal_cursor_token", "vgi_rpc/http/server/_state_token.py::_open_cursor_token", "vgi_rpc/http/server/_state_token.py::_pack_plaintext"],
     replay=replay_roundtrip("cursor"),
     min_obligations=8,
 )(roundtrip("cursor"))
 unit(
-    "C12.O4c/O5/O9 call token: open inverts seal, expiry, token = b64(envelope)",
+    "C12.O4c/O2/O9 call token, seal side: plaintext layout, key and AAD passed through, token = b64(envelope)",
     targets=["vgi_rpc/http/server/_state_token.py::_seal_call_token", "vgi_rpc/http/server/_state_token.py::_open_call_token", "vgi_rpc/http/server/_state_token.py::_pack_plaintext"],
     replay=replay_roundtrip("call"),
     min_obligations=8,
@@ -1453,6 +1456,8 @@ def mint_then_exchange(S, shapes=("none", "dp"), vary=True, same_shape=False, on
     a2, i2 = mk_auth(S, "2", sh1 if same_shape else shapes[S.choose(len(shapes))])
     S.assume(And(nul_free(i1[1]), nul_free(i2[1])))
     app, key, ttl, impl = mk_dispatch_app(S)
+    if vary:
+        S.assume(ttl > 0)  # expiry configured (ttl = 0 only drops the created_at bookkeeping; halves the paths of the big harness)
     # ---- phase A: POST /m1/init as identity 1 (the real init shell and mint functions; sealing by contract)
     install_dispatch_world(S, app, a1)
     install_seal_contracts(S)
